@@ -22,8 +22,11 @@ TEvent == /\ Step("ev")
           /\ StepOK(H', N)
           /\ N' = N
 TQuiesce == Step("quiesce") /\ QuiesceOK(H, N) /\ UNCHANGED <<H, N>>
+\* real children (a router forwards live events on its own goroutine): the final sentinel
+\* only flushes the replies, so only their completeness is judged
+TQuiesceReplies == Step("quiesce_replies") /\ QuiesceRepliesOK(H, N) /\ UNCHANGED <<H, N>>
 
-Next == TReset \/ TEvent \/ TQuiesce
+Next == TReset \/ TEvent \/ TQuiesce \/ TQuiesceReplies
 Spec == Init /\ [][Next]_vars
 See == HWMSee(l)
 Accepted == HWMAccepted
